@@ -45,6 +45,103 @@ impl Prop for C09 {
     }
     fn gen(&self, seed: u64, _tier: Tier) -> Case {
         let mut r = Rng::new(seed);
+        if r.chance(40) {
+            // 'many-overlaps' population (chords v2): the two pressed keys are also part of 13-19
+            // larger chords (more than the 16 candidates the matcher tracks at once); the chord
+            // of exactly these two keys, defined anywhere among them, must still be the one that
+            // is performed when the timeout or a release decides
+            let t = 60u64;
+            let beh = *r.pick(&["first-release", "all-released"]);
+            let thirds = ["c", "d", "e", "f", "g", "h", "i", "j", "k", "l", "m", "n", "o", "r", "s", "t", "u", "v", "w"];
+            let n = r.range(13, thirds.len() as u64) as usize;
+            let idx = r.range(0, n as u64) as usize;
+            let mut ents: Vec<String> = thirds[..n].iter().map(|k| format!("(a b {k}) q {t} {beh} ()")).collect();
+            ents.insert(idx, format!("(a b) p {t} {beh} ()"));
+            let mut case = Case { prop: "C09".into(), seed, ..Default::default() };
+            case.cfg = format!(
+                "(defcfg concurrent-tap-hold yes chords-v2-min-idle 5)\n(defsrc a b {0})\n(deflayer l0 x y {0})\n(defchordsv2 {1})\n",
+                thirds.join(" "),
+                ents.join(" ")
+            );
+            let (ka, kb) = (oscode_of("a"), oscode_of("b"));
+            let (first, second) = if r.chance(500) { (ka, kb) } else { (kb, ka) };
+            let hold = if r.chance(500) { t + 30 + r.range(0, 100) } else { r.range(5, t - 15) };
+            let mut ops = vec![Op::Gap(2), Op::Press(first), Op::Gap(r.range(1, 8) as u32), Op::Press(second), Op::Gap(hold as u32)];
+            let (r1, r2) = if r.chance(500) { (first, second) } else { (second, first) };
+            ops.push(Op::Release(r1));
+            ops.push(Op::Gap(r.range(20, 60) as u32));
+            ops.push(Op::Release(r2));
+            ops.push(Op::Gap(300));
+            case.ops = ops;
+            case.set("pop", "stale-release");
+            case.set("shape", "many-overlaps");
+            case.set("beh", beh);
+            case.set("min_ops", 0);
+            case.set("min_cfg", 0);
+            case.set("min_gaps", 0);
+            return case;
+        }
+        if r.chance(40) {
+            // 'held-chord' population (chords v2): a chord is held while other things happen that
+            // must not release it: (unrelated-tap) a non-participant is tapped within one
+            // millisecond while the chord is still ambiguous with a larger one; (other-chords) 20-30
+            // activations of another chord (the virtual coordinates chords are activated at are
+            // handed out round-robin and must not be handed out twice at the same time)
+            let t = 60u64;
+            let beh = *r.pick(&["first-release", "all-released"]);
+            let beh2 = *r.pick(&["first-release", "all-released"]);
+            let shape = *r.pick(&["unrelated-tap", "other-chords"]);
+            let mut case = Case { prop: "C09".into(), seed, ..Default::default() };
+            case.cfg = format!(
+                "(defcfg concurrent-tap-hold yes chords-v2-min-idle 5)\n(defsrc a b c d f)\n(deflayer l0 x y c d f)\n(defchordsv2 (a b) p {t} {beh} () {})\n",
+                if shape == "unrelated-tap" { format!("(a b c) q {} {beh2} ()", t + 50) } else { format!("(c d) q {t} {beh2} ()") }
+            );
+            let k = |n: &str| oscode_of(n);
+            let (first, second) = if r.chance(500) { (k("a"), k("b")) } else { (k("b"), k("a")) };
+            let mut ops = vec![Op::Gap(2), Op::Press(first)];
+            let g0 = r.range(0, 5) as u32;
+            if g0 > 0 {
+                ops.push(Op::Gap(g0));
+            }
+            ops.push(Op::Press(second));
+            if shape == "unrelated-tap" {
+                ops.push(Op::Gap(r.range(1, t - 20) as u32));
+                ops.push(Op::Press(k("f")));
+                let g = r.range(0, 2) as u32;
+                if g > 0 {
+                    ops.push(Op::Gap(g));
+                }
+                ops.push(Op::Release(k("f")));
+                ops.push(Op::Gap(r.range(80, 150) as u32));
+            } else {
+                ops.push(Op::Gap(t as u32 + 20));
+                for _ in 0..r.range(20, 30) {
+                    ops.push(Op::Press(k("c")));
+                    if r.chance(300) {
+                        ops.push(Op::Gap(1));
+                    }
+                    ops.push(Op::Press(k("d")));
+                    ops.push(Op::Gap(12));
+                    ops.push(Op::Release(k("c")));
+                    ops.push(Op::Release(k("d")));
+                    ops.push(Op::Gap(12));
+                }
+                ops.push(Op::Gap(40));
+            }
+            let (r1, r2) = if r.chance(500) { (first, second) } else { (second, first) };
+            ops.push(Op::Release(r1));
+            ops.push(Op::Gap(r.range(20, 60) as u32));
+            ops.push(Op::Release(r2));
+            ops.push(Op::Gap(300));
+            case.ops = ops;
+            case.set("pop", "stale-release");
+            case.set("shape", shape);
+            case.set("beh", beh);
+            case.set("min_ops", 0);
+            case.set("min_cfg", 0);
+            case.set("min_gaps", 0);
+            return case;
+        }
         if r.chance(60) {
             // 'stale-release' population (chords v2): one chord key is already held (it came out
             // singly long ago), the other key goes down, the first key is released and pressed
@@ -297,6 +394,15 @@ impl Prop for C09 {
                 }
             }
             let (first_rel, last_rel) = (rels[rels.len() - 2], rels[rels.len() - 1]);
+            if let Some(sh) = case.param("shape") {
+                o.count(&format!("pop.{sh}"), 1);
+            }
+            if case.param("shape") == Some("many-overlaps") {
+                if let Some(e) = outs.iter().find(|e| e.kind == OutKind::Press && (e.key == "X" || e.key == "Y" || e.key == "Q")) {
+                    o.set_fail("C09:defined-chord-did-not-fire-exactly-once", format!("a and b pressed together (a chord of exactly these keys is defined): {} was output: {}", e.key, outs_short(&outs)), vec![]);
+                    return o;
+                }
+            }
             let p_down = outs.iter().find(|e| e.kind == OutKind::Press && e.key == "P").map(|e| e.t);
             let p_up = outs.iter().filter(|e| e.kind == OutKind::Release && e.key == "P").map(|e| e.t).last();
             o.nontrivial = p_down.is_some();
